@@ -270,4 +270,15 @@ def sheetBytes (pre1 : List Seg) (dims : Bytes) (dw : Bool) (dl : Nat) (pre2 : L
 def GridSorted (S : List (Nat × Nat × Val)) : Prop :=
   S.Pairwise (fun a b => a.1 ≤ b.1) ∧ ∀ c ∈ S, c.1 < 1048576 ∧ c.2.1 < 16384
 
+/-! ### the shared string table part -/
+
+/-- a BrtSSTItem record: flags byte (no rich text, no phonetic data) and the string -/
+def sstItem (s : List Nat) (wide : Bool) (lenW : Nat) : Framed := ⟨.raw 0x0013 (0 :: wideBytes s), wide, lenW⟩
+
+/-- the bytes of `xl/sharedStrings.bin`: BrtBeginSst (total count, unique count), one BrtSSTItem per string
+    (each with its own framing widths), then anything (BrtEndSst) -/
+def sstBytes (total : Nat) (hw : Bool) (hl : Nat) (strs : List (List Nat × Bool × Nat)) (post : Bytes) : Bytes :=
+  frame 0x009F (le32 total ++ le32 strs.length) hw hl ++
+    (encodeItems (strs.map fun s => sstItem s.1 s.2.1 s.2.2) ++ post)
+
 end Xlsb
